@@ -357,7 +357,7 @@ Theorem C07_provider_open_failure : forall W f E pname inputs xbase id s p,
   let t := eval_typed W f E inputs (AccIn (pv_in p)) (arg_id id 0) s1 in
   forall iv a b m,
   fst t = (iv, true) -> contains_unknowns iv = false -> w_check W = false ->
-  export big_fuel iv = Some (XObj a b m) ->
+  export_t iv = Some (XObj a b m) ->
   (w_fault W = Some (calls (snd t)) \/ pv_beh p = PFail) ->
   exists s',
     eval_repr W (S f) E (EOpen pname inputs) xbase id s = ([unknown_layer false (pv_out p)], s') /\
@@ -371,7 +371,7 @@ Theorem C07_provider_nonobject_inputs : forall W f E pname inputs xbase id s p,
   let t := eval_typed W f E inputs (AccIn (pv_in p)) (arg_id id 0) s1 in
   forall iv x,
   fst t = (iv, true) -> contains_unknowns iv = false -> w_check W = false ->
-  export big_fuel iv = Some x -> (forall a b m, x <> XObj a b m) ->
+  export_t iv = Some x -> (forall a b m, x <> XObj a b m) ->
   eval_repr W (S f) E (EOpen pname inputs) xbase id s = ([unknown_layer false (pv_out p)], bump (snd t)).
 Proof. exact provider_nonobject_inputs. Qed.
 
